@@ -33,7 +33,8 @@ H = ['class', 'lambda', 'None', 'a', '0', '1+', '-', '.', '..', "'", '"',
      '1,2', '()', '}', ')', '[]', '{[]}', '{{}}', '2j']
 BOUNDS = {'quick': dict(atoms=2, containers=3),
           'thorough': dict(atoms=3, containers=3, big_b=True)}
-RIGHTS = ['x', '%(t)s', '%(missing)s']
+RIGHTS = ['x', '%(t)s', '%(missing)s', '%(missing.dotted-name)s',
+          '%(t)s%(also missing)s']
 TARGETS = [{}, {'t': 'x'}, {'t': 1}, {'t': 1.5}, {'t': True}, {'t': None},
            {'t': [1]}, {'t': {'k': 1}}]
 CREDS = [
@@ -263,7 +264,8 @@ def run(job, seed):
     if job['space'] == 'A':
         L = lefts(b['atoms'])[job['lo']:job['hi']]
         for left, k in L:
-            for right in RIGHTS:
+            # the unusual placeholder names: with short left sides only
+            for right in (RIGHTS if k <= 1 else RIGHTS[:3]):
                 leaf = '%s:%s' % (left, right)
                 toks = lang.lex(leaf)
                 text_ok = (len(toks) == 1 and toks[0] == ('LEAF', leaf))
